@@ -440,6 +440,12 @@ func Check(t *testing.T, prop func(rt *rapid.T)) {
 		failSeed  uint64 // seed of the first failing run
 		firstViol string
 	)
+	// The seed of the run in progress is kept in a side file so that the driver
+	// can report (and replay) a run that crashed the whole process.
+	var seedFile *os.File
+	if sp := os.Getenv("VERIF_STATS"); sp != "" {
+		seedFile, _ = os.OpenFile(sp+".curseed", os.O_CREATE|os.O_WRONLY|os.O_TRUNC, 0o644)
+	}
 	done := make(chan struct{})
 	defer close(done)
 	go func() {
@@ -492,7 +498,17 @@ func Check(t *testing.T, prop func(rt *rapid.T)) {
 			iter++
 		}
 		running, runStart = true, time.Now()
+		cs, pin := curSeed, pinned
 		wmu.Unlock()
+		if seedFile != nil && !pin {
+			var b [21]byte
+			out := strconv.AppendUint(b[:0], cs, 10)
+			out = append(out, '\n')
+			for len(out) < 21 {
+				out = append(out, ' ')
+			}
+			seedFile.WriteAt(out, 0)
+		}
 		defer func() {
 			wmu.Lock()
 			running = false
